@@ -154,7 +154,14 @@ pub fn drive(prop: &str, args: &[String]) -> i32 {
             projects.push(p);
             extra_cases.push(c);
             extra_replies.push(r);
+        } else if prop == "C11" && matches!(&r, Reply::Ok(v) if v["parse"]["status"] == "ok" && v["build"]["status"] == "panic") {
+            // the parser accepts the project but the build helper panics on it: the export case must see it
+            projects.push(p);
         }
+    }
+    // ---- one very large unit (C11, json, default configuration): table positions beyond 16 bits
+    if prop == "C11" && corpus::VARIANT.is_empty() && corpus::FORMAT == "json" {
+        projects.push(crate::gen::generate_huge(opts.seed));
     }
     // ---- grammar-adversarial variants of generated projects: loaded fault-free only (C09; default code generator only)
     if prop == "C09" && corpus::VARIANT.is_empty() {
